@@ -16,7 +16,7 @@ def gen_store_faults(rng, world, p=0.5):
     if names and rng.random() < p:
         for _ in range(rng.randrange(1, 3)):
             op = rng.choice(["read", "write", "write", "mtime"])
-            f = dict(store=rng.choice(names), op=op, exc=rng.choice(["E1", "E2", "OSError", "F1"]))
+            f = dict(store=rng.choice(names), op=op, exc=rng.choice(["E1", "E2", "OSError", "F1", "Z1"]))
             if op == "write":
                 f["when"] = rng.choice(["before", "after"])
             if rng.random() < 0.3:
@@ -26,7 +26,7 @@ def gen_store_faults(rng, world, p=0.5):
 
 
 def gen_history(seed, tier, *, n_ops=(2, 6), genkw=None,
-                allow=("run", "fail", "cut", "update", "delete", "fresh", "intr", "bump"),
+                allow=("run", "fail", "cut", "update", "delete", "fresh", "intr", "bump", "dry"),
                 final_run=True):
     rng = worldgen.child_rng(seed, "history")
     # (value stores on literals and gather results, too; one store object behind two source nodes)
@@ -40,7 +40,7 @@ def gen_history(seed, tier, *, n_ops=(2, 6), genkw=None,
     fed = {sd["feeds"] for sd in world["stores"].values() if sd.get("feeds")}
     deletable = [n["store"] for n in world["nodes"] if n.get("store") and n["store"] not in pure and n["store"] not in fed]
     ops = []
-    weights = dict(run=4, fail=2, cut=2, update=2, delete=2, fresh=1, intr=1, bump=2)
+    weights = dict(run=4, fail=2, cut=2, update=2, delete=2, fresh=1, intr=1, bump=2, dry=2)
     future_done = [False]
     bumpable = [n["id"] for n in world["nodes"] if n["kind"] == "call" and n.get("store") and n["store"] in deletable]
     kinds = [k for k in allow for _ in range(weights[k])]
@@ -82,6 +82,10 @@ def gen_history(seed, tier, *, n_ops=(2, 6), genkw=None,
                 ops.append(dict(op="fresh"))
         elif k == "bump" and bumpable:
             ops.append(dict(op="bump", node=rng.choice(bumpable)))
+        elif k == "dry":
+            # a dry run of the same Plan and Registry objects somewhere in the history: it touches nothing, so whatever
+            # comes later - store changes, then real runs of those very objects - goes as if it had not happened
+            ops.append(dict(op="dryrun", cfg=_cfg(rng, world)))
     if final_run:
         ops.append(dict(op="run", cfg=_cfg(rng, world), final=True))
     for op in ops:
@@ -89,6 +93,13 @@ def gen_history(seed, tier, *, n_ops=(2, 6), genkw=None,
         # one more run of the same objects in a process that has run them before
         if op["op"] == "run" and rng.random() < 0.4:
             op["reuse"] = True
+    after_dry = False
+    for op in ops:
+        if op["op"] == "dryrun":
+            after_dry = True
+        elif op["op"] == "run" and after_dry:
+            op["reuse"] = True     # the objects the dry run was given are the ones that are run next
+            after_dry = False
     # distance between successive modified times: from whole seconds down to tens of microseconds
     tick = rng.choice([1.0, 1.0, 0.3, 0.3, 0.001, 0.00002])
     return dict(seed=seed, world=world, ops=ops, sched=sc, tick=tick), rng
@@ -427,6 +438,7 @@ def _exec_c14(prop, desc, hist):
 
     world = hist.world
     hist.init_sources()
+    st_init = _state(hist)
     tapes = desc.get("tapes") or {}
     viol = []
     last = len(desc["ops"]) - 1
@@ -533,6 +545,30 @@ def _exec_c14(prop, desc, hist):
                         viol.append(O.V("dry-plan-endstate", f"stores {bad} differ between the real run and the physical plan"))
                 elif not viol:
                     viol.append(O.V("dry-plan-endstate", f"store sets differ: {sorted(end_r)} vs {sorted(end_p)}"))
+    if not viol and rec_d.exc is None and st_init[0][0] != st0[0][0]:
+        # (4) "touches nothing" includes the objects it was given: the stores go back to what they were before the
+        # history, and the Plan and Registry that went through the dry run are run for real - they do what freshly built
+        # ones do from that state
+        _restore(hist, st_init)
+        rec_a = machine.run_op(hist, dict(copy.deepcopy(op), reuse=True), last + 3, built=rec_d.built)
+        end_a = {k: v[0] for k, v in hist.disk.data.items()}
+        _restore(hist, st_init)
+        fop = copy.deepcopy(op)
+        fop.pop("reuse", None)
+        rec_b = machine.run_op(hist, fop, last + 4)
+        end_b = {k: v[0] for k, v in hist.disk.data.items()}
+        if (rec_a.exc is None) != (rec_b.exc is None):
+            viol.append(O.V("dry-run-left-state", f"after other store contents, the objects a dry run was given: "
+                                                  f"{rec_a.exc!r}; freshly built ones: {rec_b.exc!r}"))
+        elif rec_a.exc is None:
+            a, b = _activity(rec_a), _activity(rec_b)
+            if a != b:
+                diff = {k: (a[k], b[k]) for k in a if a[k] != b[k]}
+                viol.append(O.V("dry-run-left-state", f"a real run of the objects a dry run was given differs from a run "
+                                                      f"of freshly built ones (given, fresh): {diff}"))
+            elif set(end_a) != set(end_b) or [k for k in end_a if canon(end_a[k]) != canon(end_b[k])]:
+                viol.append(O.V("dry-run-left-state", "end states differ between the objects a dry run was given and "
+                                                      "freshly built ones"))
     return result(desc, hist, viol)
 
 
